@@ -29,6 +29,14 @@ LEVEL = "exploration"
 from geckolib.const import GeckoConstants as K  # noqa: E402
 
 CLASS_OF = {"PUMP": "GeckoPump", "BLOWER": "GeckoBlower", "LIGHT": "GeckoLight"}
+# the harness's OWN copy of the device / sensor catalogue (what a user device is called, its keypad id, its state item and
+# class) - the oracle must not read it from the library it judges
+REF_DEVICES = {"P1": ("Pump 1", 1, "P1", "PUMP"), "P2": ("Pump 2", 2, "P2", "PUMP"), "P3": ("Pump 3", 3, "P3", "PUMP"),
+               "P4": ("Pump 4", 4, "P4", "PUMP"), "P5": ("Pump 5", 5, "P5", "PUMP"), "BL": ("Blower", 6, "BL", "BLOWER"),
+               "Waterfall": ("Waterfall", 23, "Waterfall", "PUMP"), "LI": ("Lights", 16, "UdLi", "LIGHT")}
+REF_SENSORS = [("Smart Winter Mode:Risk", "SwmRisk")]
+REF_BINARY_SENSORS = [("Circulating Pump", "CP"), ("Pump Run", "PumpRun"), ("Ozone", "O3"), ("Smart Winter Mode:Active", "SwmActive"),
+                      ("Filter Status:Clean", "Clean"), ("Filter Status:Purge", "Purge")]
 
 
 def expected(spa, wired_labels):
@@ -45,8 +53,8 @@ def expected(spa, wired_labels):
     for dev in devs:
         for ud in st.user_demands:
             if f"Ud{dev}".upper() == ud.upper():
-                if dev in K.DEVICES:
-                    name, keypad, state_key, cls = K.DEVICES[dev]
+                if dev in REF_DEVICES:
+                    name, keypad, state_key, cls = REF_DEVICES[dev]
                     out.append({"key": dev, "cls": CLASS_OF[cls], "name": name, "demand": ud, "modes": acc[ud].items,
                                 "state": state_key})
     return out
@@ -80,8 +88,8 @@ def judge(spa, fac, wired_labels, which):
         if g["cls"] == "GeckoPump" and (g.get("demand") != e["demand"] or g.get("modes") != e["modes"]):
             return ("demand", f"{which}: pump {g['key']} demand {g.get('demand')} modes {g.get('modes')}, expected {e['demand']} {e['modes']}")
     acc = spa.accessors
-    exp_s = [s[0].upper() for s in K.SENSORS if s[1] in acc]
-    exp_b = [s[0].upper() for s in K.BINARY_SENSORS if s[1] in acc]
+    exp_s = [s[0].upper() for s in REF_SENSORS if s[1] in acc]
+    exp_b = [s[0].upper() for s in REF_BINARY_SENSORS if s[1] in acc]
     if [s.key for s in fac.sensors] != exp_s or [s.key for s in fac.binary_sensors] != exp_b:
         return ("sensors", f"{which}: sensors {[s.key for s in fac.sensors]}/{[s.key for s in fac.binary_sensors]}, items imply {exp_s}/{exp_b}")
     devs = [d for d in fac.all_automation_devices if d is not None]
@@ -105,7 +113,7 @@ def judge(spa, fac, wired_labels, which):
             return ("listing", f"{which}: device {d.key} is in the inventory but not in facade.devices {list(listed)[:8]}")
         if fac.get_device(d.key) is not d:
             return ("lookup", f"{which}: get_device({d.key!r}) is not the device the inventory holds")
-    stray = [k for k in listed if k in K.DEVICES and k not in [d.key for d in user]]
+    stray = [k for k in listed if k in REF_DEVICES and k not in [d.key for d in user]]
     if stray:
         return ("listing", f"{which}: facade.devices lists user devices {stray} that the wiring does not provide")
     return None
